@@ -70,8 +70,11 @@ def concretize(model, nondets, literals):
             c = int(args[0])
             if parseok.get(c) and c not in forced and c not in code2lit:
                 forced[c] = fmt_time(trank.get(int(v), 0))
+    for c, okv in parseok.items():
+        if okv and c not in forced and c not in code2lit:
+            forced[c] = fmt_time(1)  # parses, value unconstrained by the query
 
-    codes = set()
+    codes = set(forced)
     for n, k in nondets.items():
         if k == "atom" and n in model:
             codes.add(int(model[n]))
@@ -196,6 +199,8 @@ def concretize(model, nondets, literals):
             values[n] = strs[int(v)]
         elif k == "time":
             values[n] = str(trank.get(int(v), 0))
+        elif k == "nat":
+            values[n] = str(int(v))
         elif k == "bool":
             values[n] = v
         elif k in ("int", "byte"):
